@@ -39,6 +39,12 @@ theorem pav_cache_contents (h : List PavCall) :
     rw [List.getElem?_eq_none hk']
     simp [hk']
 
+/-- the length of the cache after a history: one more than the largest seat count asked for so far (at least 1);
+    with `pav_cache_contents` this determines the state completely -/
+theorem pav_cache_length (h : List PavCall) :
+    (run pavStep pavInit h).1.length = h.foldl (fun m c => max m (c.nSeats + 1)) 1 :=
+  pav_run_length h pavInit
+
 /-- **History independence of PAV.**  The answer to a call after any sequence of earlier calls on the same
     evaluator (any profiles, any seat counts, any repetitions) is the answer of a fresh evaluator. -/
 theorem history_independent_pav (h : List PavCall) (c : PavCall) :
@@ -133,17 +139,17 @@ theorem history_independent_seeded {G Req Out : Type} (M : RngModel G Req Out) (
 
 /-- the draws are a function of the seed and the requests alone: the same for every two generator states -/
 theorem seeded_draws_function_of_seed {G Req Out : Type} (M : RngModel G Req Out) (g0 g1 : G)
-    (h h' : List (RngCall G Req)) (seed : Nat) (reqs : List Req) :
-    lastOut (seededStep M) g0 (h ++ [.seeded seed reqs]) = lastOut (seededStep M) g1 (h' ++ [.seeded seed reqs]) := by
+    (h h' : List (RngCall G Req)) (seed : Nat) (blocks : List (List Req)) :
+    lastOut (seededStep M) g0 (h ++ [.seeded seed blocks]) = lastOut (seededStep M) g1 (h' ++ [.seeded seed blocks]) := by
   rw [lastOut_append, lastOut_append]
   exact congrArg some (seededStep_out_indep M _ _ _)
 
-/-- every single draw of a reseeding call is the first draw after `seed(seed)` -/
-theorem seeded_draws_explicit {G Req Out : Type} (M : RngModel G Req Out) (seed : Nat) (g : G) (reqs : List Req) :
-    (drawsReseeding M seed g reqs).2 = reqs.map (fun r => (M.draw (M.reseed seed) r).1) := by
-  induction reqs generalizing g with
+/-- every block of a reseeding call is the sequence of draws that follows `seed(seed)` on a pristine generator -/
+theorem seeded_draws_explicit {G Req Out : Type} (M : RngModel G Req Out) (seed : Nat) (g : G) (blocks : List (List Req)) :
+    (blocksReseeding M seed g blocks).2 = blocks.map (fun b => (drawsSeq M (M.reseed seed) b).2) := by
+  induction blocks generalizing g with
   | nil => rfl
-  | cons r rs ih => simp [drawsReseeding, ih]
+  | cons r rs ih => simp [blocksReseeding, ih]
 
 /-- without the `random.seed(self.seed)` line the same component is history dependent (linear congruential toy
     generator): the draw after another draw differs from the draw on the initial generator -/
@@ -151,14 +157,15 @@ theorem history_dependent_unseeded_witness :
     ¬ (∀ (h : List (RngCall Nat Nat)) (c : RngCall Nat Nat),
         lastOut (unseededStep lcg) 1 (h ++ [c]) = lastOut (unseededStep lcg) 1 [c]) := by
   intro hall
-  have := hall [.seeded 7 [10]] (.seeded 7 [10])
+  have := hall [.seeded 7 [[10]]] (.seeded 7 [[10]])
   revert this
   decide +kernel
 
-example : lastOut (seededStep lcg) 1 [.seeded 7 [10], .other (fun g => g + 5), .seeded 7 [10, 10]]
-    = some [5, 5] := by decide +kernel
+example : lastOut (seededStep lcg) 1 [.seeded 7 [[10]], .other (fun g => g + 5), .seeded 7 [[10, 10], [10]]]
+    = some [[5, 8], [5]] := by decide +kernel
 
 /-! ## validators: defaultdicts of checkers filled in on demand -/
+
 
 /-- **History independence of RankedVoteValidator**, for every configuration: the checkers that earlier votes
     made the defaultdict materialise never change the verdict on a later vote. -/
@@ -214,5 +221,26 @@ theorem history_dependent_counting_factory_witness :
   have := hall [(1, 1)] (2, 2)
   revert this
   decide +kernel
+
+/-! ## several objects in one history -/
+
+/-- a PAV evaluator and a Borda positional converter used alternately in one history (any interleaving): every call
+    is answered as by a fresh object — the state of one object is not touched by calls on the other -/
+theorem history_independent_pav_with_borda (base : Int) (h : List (PavCall ⊕ RankedProfile)) (c : PavCall ⊕ RankedProfile) :
+    lastOut (prodStep pavStep (bordaStep base)) (pavInit, bordaInit) (h ++ [c])
+      = lastOut (prodStep pavStep (bordaStep base)) (pavInit, bordaInit) [c] := by
+  apply history_independent_prod_of_inv pavStep (bordaStep base) PavInv (fun _ => True) pavInit bordaInit pavInv_init trivial
+  · intro s c hs; exact pavExtend_inv s c.nSeats hs
+  · intros; trivial
+  · intro s c hs
+    show pavEval (pavExtend s c.nSeats) c.votes c.nSeats = pavEval (pavExtend pavInit c.nSeats) c.votes c.nSeats
+    rw [pavEval_eq_spec _ (pavExtend_inv s c.nSeats hs) _ _ (pavExtend_length_ge s c.nSeats),
+        pavEval_eq_spec _ (pavExtend_inv pavInit c.nSeats pavInv_init) _ _ (pavExtend_length_ge pavInit c.nSeats)]
+  · intro s c _; exact bordaStep_out_indep base s bordaInit c
+
+/-- "nor on how often it has been called": asking the same question again gives the same answer -/
+theorem pav_repeated_call (h : List PavCall) (c : PavCall) :
+    lastOut pavStep pavInit (h ++ [c] ++ [c]) = lastOut pavStep pavInit (h ++ [c]) := by
+  rw [history_independent_pav (h ++ [c]) c, history_independent_pav h c]
 
 end VL.C18
